@@ -28,6 +28,8 @@ def _local_alphabet(profile, role):
     extra = "-."
     if role == "id" or profile in ("json", "provn", "graph", "dot"):
         extra += "/"
+    if profile == "dot":
+        extra += '"\\<>&{}| '     # identifiers that are hostile to DOT / HTML-like labels
     if profile != "provn":
         return _ASCII_LOCAL + "é漢", extra
     return _ASCII_LOCAL + "é漢", extra
